@@ -769,6 +769,7 @@ func runC10(c *Ctx) {
 	}
 	c10SiteDifferential(c, nsite)
 	c10ConvertDifferential(c, nconv)
+	c10Site2Differentials(c)
 	c10RunProvocations(c, boost)
 }
 
